@@ -282,6 +282,32 @@ def run(ctx):
         except Exception as e:      # noqa: BLE001
             ev.update(raised=True, exc=f"{type(e).__name__}: {e}"[:200])
         sessions.append(dict(sid=8000 + r, inp=sessions[0]["inp"], events=[ev]))
+    # large collections: copies of a few distinct strings (counts follow from the distances of the distinct strings)
+    amap = {c: i for i, c in enumerate(nc.AA)}
+    for r in range(4 if ctx.quick else 24):
+        m = ctx.rng.randint(4, 8)
+        u = []
+        while len(u) < m:
+            for s_ in nc.repertoire(ctx.rng, m, maxmut=2, maxlen=10, families=2, short=1):
+                if s_ not in u and len(u) < m:
+                    u.append(s_)
+        two = r % 2 == 1
+        big = ctx.rng.choice([1030, 1100, 1500, 2100])
+        mx = [1 + c for c in np.random.RandomState(r).multinomial(big - m, [1.0 / m] * m).tolist()]
+        my = [int(c) for c in np.random.RandomState(100 + r).multinomial(ctx.rng.choice([40, 700]), [1.0 / m] * m).tolist()] if two else [0] * m
+        x = [s_ for s_, c in zip(u, mx) for _ in range(c)]
+        y = [s_ for s_, c in zip(u, my) for _ in range(c)]
+        ctx.rng.shuffle(x)
+        ctx.rng.shuffle(y)
+        edges = sorted(ctx.rng.sample(range(0, 12), ctx.rng.randint(2, 6))) if r % 4 < 2 else list(range(0, 25))
+        ev = dict(op="Big", u=[nc.enc(s_, amap) for s_ in u], mx=mx, my=my, edges=edges, raised=False, hist=[])
+        try:
+            kw = {} if (edges == list(range(0, 25)) and r % 8 >= 4) else dict(bins=edges)
+            h = prs.pcDelta(np.array(x) if r % 3 == 0 else x, (y if two else None), normalize=False, **kw)
+            ev["hist"] = [int(v) for v in h]
+        except Exception as e:      # noqa: BLE001
+            ev.update(raised=True, exc=f"{type(e).__name__}: {e}"[:200])
+        sessions.append(dict(sid=8500 + r, inp=sessions[0]["inp"], events=[ev]))
     # bundled background table
     ev = dict(op="Background", index=[], bins=[], nrows=-1, pcdelta_len=-1)
     try:
@@ -311,6 +337,18 @@ def run(ctx):
         ctx.negative.append(dict(kind="corrupted_trace", corruption="bin", rejected=ok))
         if not ok:
             raise MachineryFailure("corrupted pcDelta trace accepted")
+    bigs = [s for s in sessions if s["events"][0]["op"] == "Big" and s["events"][0]["hist"] and not s["events"][0]["raised"]]
+    if bigs:
+        c = copy.deepcopy(bigs[0])
+        c["sid"] = 990002
+        h = c["events"][0]["hist"]
+        k = max(range(len(h)), key=lambda i: h[i])
+        h[k] -= 1                     # one pair of copies lost
+        v = tcm.validate(ctx, "TracePcDelta", [c], constants=TRACE_CONSTS, count=False)
+        ok = any(cl == "large_input_bin_wrong" for _, _, cl in tcm.failures(v[c["sid"]]))
+        ctx.negative.append(dict(kind="corrupted_trace", corruption="large_input_bin", rejected=ok))
+        if not ok:
+            raise MachineryFailure("corrupted large-input pcDelta trace accepted")
     run_cfg(ctx, "NEG_square", cfg_text(maxn=2, maxlen=1, pseudos="P0", mutations=["full_square"], invs=("CountsExact",), emit=False),
             expect_violation=["CountsExact"], workers=4)
     run_cfg(ctx, "NEG_swapAB", cfg_text(maxn=2, maxlen=1, pseudos="P0", elemkinds=("A", "B"), mutations=["swap_default_AB"], invs=("DefaultMetricTable",), emit=False),
